@@ -29,6 +29,11 @@ type waitRes struct {
 // goroutines did not change over stableNeeded dumps and every core/mr goroutine
 // is parked (stable=true), or when the watchdog fires (stable=false).
 func (r *run) waitQuiet(done <-chan outcome, every time.Duration) waitRes {
+	return r.waitQuietN(done, every, stableNeeded)
+}
+
+// waitQuietN is waitQuiet with the number of identical consecutive dumps as a parameter.
+func (r *run) waitQuietN(done <-chan outcome, every time.Duration, need int) waitRes {
 	deadline := time.Now().Add(watchdog)
 	prev, same := "", 0
 	for time.Now().Before(deadline) {
@@ -46,7 +51,7 @@ func (r *run) waitQuiet(done <-chan outcome, every time.Duration) waitRes {
 		} else {
 			prev, same = fp, 0
 		}
-		if same >= stableNeeded-1 {
+		if same >= need-1 {
 			if ok, _ := allParked(mrGoroutines()); ok {
 				return waitRes{stable: true, dump: gs}
 			}
@@ -70,6 +75,8 @@ func (r *run) releaseHolds() {
 	r.closeOnce(3, r.outRelease)
 	r.closeOnce(6, r.genHold)
 	r.closeOnce(7, r.redGo)
+	r.closeOnce(11, r.endGo)
+	r.releaseGen()
 }
 
 // releaseAll additionally aborts the run: the generator's send and the reducer's
@@ -93,6 +100,11 @@ func (r *run) aborted() bool {
 }
 
 func (r *run) await(done <-chan outcome) awaited {
+	if r.p.Park != nil {
+		if a, ok := r.awaitPark(done); ok {
+			return a
+		}
+	}
 	if r.p.Inflight {
 		if o, ok := r.driveInflight(done); ok {
 			return awaited{waitRes: waitRes{o: o, returned: true}}
@@ -170,7 +182,18 @@ func (r *run) await(done <-chan outcome) awaited {
 }
 
 func execute(c *kit.Case, p plan) {
-	r := newRun(c, c.ID, p)
+	r := executeRun(c, c.ID, p, 1)
+	if r.p.Park != nil {
+		r.concludePark()
+	}
+}
+
+// executeRun performs one run of the plan under the goroutine label id. mult > 1: a repetition
+// of a genpark run with doubled patience (genpark_test.go): only the question "did the call wait
+// for the parked generator" is answered, nothing else is judged or counted again.
+func executeRun(c *kit.Case, id string, p plan, mult int) *run {
+	r := newRun(c, id, p)
+	r.mult = mult
 	base := runtime.NumGoroutine()
 	over := make(chan struct{})
 	feed, feedDone, cleanup := r.setup(over)
@@ -189,13 +212,15 @@ func execute(c *kit.Case, p plan) {
 		done <- o
 	}()
 	a := r.await(done)
-	c.Obs("runs", 1)
-	c.Obs("runs_api_"+p.API, 1)
+	if mult == 1 {
+		c.Obs("runs", 1)
+		c.Obs("runs_api_"+p.API, 1)
+	}
 	if !a.returned {
 		r.notReturned(a)
 		r.releaseAll()
 		markLeaked()
-		return
+		return r
 	}
 	if a.releasedAll {
 		c.Obs("call_returned_only_after_release_all", 1)
@@ -204,12 +229,16 @@ func execute(c *kit.Case, p plan) {
 	// let the user functions return
 	r.closeOnce(2, r.stallRelease)
 	r.closeOnce(3, r.outRelease)
+	r.releaseGen()
 	if feedDone != nil {
 		r.awaitFeeder(feedDone)
 	}
 	finish()
 	settle(base)
 	leakFree := r.census(o)
+	if mult > 1 {
+		return r
+	}
 	if r.ctxDoneAtCall.Load() {
 		c.Obs("ctx_ended_before_call_runs", 1)
 		if leakFree && !r.aborted() && p.Items > 0 && (p.API == apiMR || p.API == apiVoid || p.API == apiForEach) {
@@ -218,6 +247,7 @@ func execute(c *kit.Case, p plan) {
 		}
 	}
 	r.judge(o, leakFree)
+	return r
 }
 
 // awaitFeeder: MapReduceChan has returned; the harness goroutine that plays the
@@ -326,6 +356,9 @@ func (r *run) census(o outcome) bool {
 		if len(leaked) == 0 {
 			if genReported {
 				return false
+			}
+			if r.mult > 1 {
+				return true
 			}
 			r.c.Obs("census_zero", 1)
 			if !r.aborted() {
